@@ -6,6 +6,7 @@ weight function / arbitrary `md5`, any number of services.
 import ArvVerif.Proofs.C12
 import ArvVerif.Proofs.C12_Hex
 import ArvVerif.Proofs.C12_Sweep
+import ArvVerif.Proofs.C12_Py
 namespace ArvVerif.C12
 variable {α : Type}
 
@@ -160,6 +161,61 @@ theorem C12_shared_rank_breaks :
       = [some [1], some [1]] ∧
     wantedServers 1 (probeOrder (exW 0) [1, 2, 3]) = [3] := by
   simp [sharedRun, sharedStep, updAt, wantedServers, exW_order0, exW_order1]
+
+/-- The Python SDK (keep.py `_service_weight`, `weighted_service_roots` after `build_services_list`)
+probes in the same order as the Go client: for a discovery answer whose uuids have 27 (or at most
+15) characters and pairwise distinct weights, the uuids in Python's read order are any outcome of
+Go's sorter over the same (non-gateway) services, and Python's write order is that order restricted
+to the services that are not read-only. -/
+theorem C12_python_same_order (md5 : List Char → Nat) (hash : List Char) (items : List PySvc)
+    (goOut : List (List Char))
+    (hlen : ∀ s ∈ items, s.uuid.length = 27 ∨ s.uuid.length ≤ 15)
+    (hinj : ∀ a ∈ (pyKeepServices items).map (·.uuid), ∀ b ∈ (pyKeepServices items).map (·.uuid),
+      weight md5 hash a = weight md5 hash b → a = b)
+    (hrec : ∀ a ∈ pyKeepServices items, ∀ b ∈ pyKeepServices items,
+      weight md5 hash a.uuid = weight md5 hash b.uuid → a = b)
+    (hgo : IsProbeOrder (weight md5 hash) ((pyKeepServices items).map (·.uuid)) goOut) :
+    (pyOrder (pyWeight md5 hash) (pyKeepServices items)).map (·.uuid) = goOut ∧
+    pyOrder (pyWeight md5 hash) (pyWritableServices items) =
+      (pyOrder (pyWeight md5 hash) (pyKeepServices items)).filter (fun s => !s.readOnly) := by
+  have hk : ∀ s ∈ pyKeepServices items, pyWeight md5 hash s.uuid = weight md5 hash s.uuid := by
+    intro s hs
+    exact pyWeight_eq_weight md5 hash s.uuid (hlen s (List.mem_filter.mp hs).1)
+  have hread : IsProbeOrder (fun s : PySvc => weight md5 hash s.uuid) (pyKeepServices items)
+      (pyOrder (pyWeight md5 hash) (pyKeepServices items)) :=
+    isProbeOrder_congr _ _ _ _ hk (probeOrder_is _ _)
+  constructor
+  · exact isProbeOrder_unique (weight md5 hash) _ _ _ hinj
+      (isProbeOrder_map (fun s : PySvc => s.uuid) (weight md5 hash) _ _ hread) hgo
+  · have hw : IsProbeOrder (fun s : PySvc => weight md5 hash s.uuid) (pyWritableServices items)
+        (pyOrder (pyWeight md5 hash) (pyWritableServices items)) := by
+      apply isProbeOrder_congr _ _ _ _ _ (probeOrder_is _ _)
+      intro s hs; exact hk s (List.mem_filter.mp hs).1
+    apply isProbeOrder_unique _ (pyWritableServices items) _ _ _ hw
+      (isProbeOrder_filter _ _ _ _ hread)
+    intro a ha b hb; exact hrec a (List.mem_filter.mp ha).1 b (List.mem_filter.mp hb).1
+
+/-- For uuids of 27 or at most 15 characters the two weights are the same number; for other
+lengths they are different functions (Go: whole uuid, Python: last 15 characters). -/
+theorem C12_python_weight (md5 : List Char → Nat) (hash uuid : List Char)
+    (h : uuid.length = 27 ∨ uuid.length ≤ 15) : pyWeight md5 hash uuid = weight md5 hash uuid :=
+  pyWeight_eq_weight md5 hash uuid h
+
+theorem C12_python_weight_differs_other_lengths :
+    ∃ (md5 : List Char → Nat) (hash uuid : List Char), uuid.length = 16 ∧
+      pyWeight md5 hash uuid ≠ weight md5 hash uuid :=
+  ⟨List.length, [], List.replicate 16 'a', by simp, by
+    simp [pyWeight, weight, pyUuidSuffix, uuidSuffix]⟩
+
+/-- Both clients turn the same hint fields into the same targets in the same order (only the
+rendering of a cluster target differs: `proxyURL` vs `pyProxyURL`, the latter with a trailing "/"). -/
+theorem C12_python_same_hints (gw : List Char → Option (List Char)) (fs : List (List Char)) :
+    hintRoots gw fs = (hintTargets gw fs).map renderGo ∧
+    pyHintRoots gw fs = (hintTargets gw fs).map renderPy :=
+  ⟨hintRoots_eq_targets gw fs, pyHintRoots_eq_targets gw fs⟩
+
+example : pyWeight List.length [] (List.replicate 27 'a') = weight List.length [] (List.replicate 27 'a') :=
+  C12_python_weight _ _ _ (Or.inl (by simp))
 
 /-! Non-vacuity: concrete instances of the hypotheses. -/
 example : IsProbeOrder (fun n : Nat => n) [3, 1, 2] [3, 2, 1] := by
